@@ -158,7 +158,8 @@ def check(ctx):
         "range can re-borrow the stack; R3 no LocalKey::with, every try_with result is consumed without unwrap; R4 "
         "GLOBAL_COLLECTOR.lock() is reachable only from flush/set_reporter, SPSC_RXS.lock() only through the "
         "thread-local initialiser, the lock-order graph is acyclic, no user code under the SPSC_RXS guard; R5 no "
-        "blocking callee is reachable from the tracing API other than flush, and every loop on the send path dequeues.")
+        "blocking callee is reachable from the tracing API other than flush, every loop on the send path dequeues, and no "
+        "path retries after the ring reported Full.")
     ctx.not_decided = ("panics inside dependencies (allocation, fastant, rtrb, rand); re-entrancy through user Into/"
                        "IntoIterator impls evaluated under the borrow (listed as residual in the evidence); a reporter "
                        "that itself calls flush().")
